@@ -192,10 +192,7 @@ Print Assumptions C07_volume_respond.
 Theorem C07_volume_frame_msg : forall cfg s o s',
   handle cfg s o = Ok s' -> (forall dt, o <> OEndBlock dt) ->
   (forall r w c o' v k, o <> ORespond r w c o' v k) -> vols s' = vols s.
-Proof.
-  intros cfg s o s' H Hne Hnr. apply (GapC07.volume_frame_msg cfg s o s' H Hne).
-  destruct o; try reflexivity. exfalso. eapply Hnr. reflexivity.
-Qed.
+Proof. exact GapC07.volume_frame_msg_nonresp. Qed.
 Print Assumptions C07_volume_frame_msg.
 
 (* nor does EndBlock (expiry phase, new-batch phase, tick) *)
